@@ -213,6 +213,20 @@ static void c10_verdict(struct stripe *s, uint8_t *m, const char *name)
     int inv = is_invalid_fragment(s->desc, (char *)m);
     if ((inv != 0) != (want != 0)) vh_violation(want ? "damaged-fragment-validated" : "intact-fragment-rejected", "%s: is_invalid_fragment=%d, payload checksum mismatch per reference=%d", name, inv, want);
 }
+/* "on any reader": the same fragment as an opposite-endian writer would have laid it out must get the same mismatch verdict */
+static void c10_twin_verdict(struct stripe *s, const uint8_t *w, const char *name)
+{
+    uint8_t *t = malloc(s->flen); memcpy(t, w, s->flen); wire_byteswap_twin(t);
+    int want = ref_mismatch(t, s->flen);
+    uint8_t *m = slot_put(1, t, s->flen);
+    fragment_metadata_t md; memset(&md, 0, sizeof md);
+    vh_op("liberasurecode_get_fragment_metadata"); vh_transitions(1);
+    int rc = liberasurecode_get_fragment_metadata((char *)m, &md);
+    int got = ((uint8_t *)&md)[53];
+    if (rc != 0) vh_violation("metadata-query-failed", "%s (opposite-endian twin): rc=%d", name, rc);
+    else if (want >= 0 && got != want) vh_violation(want ? "mismatch-not-reported" : "false-mismatch", "%s (opposite-endian twin): metadata query reports mismatch=%d, reference says %d", name, got, want);
+    free(t);
+}
 static void plan_c10(void)
 {
     int thorough = !strcmp(vh_tier(), "thorough");
@@ -277,7 +291,7 @@ static void plan_c10(void)
                     for (int fi = 0; fi < n; fi += (n > 6 ? n - 1 : 1)) {
                         uint8_t *w = malloc(s.flen);
                         memcpy(w, enc_frag(&s, fi), s.flen);
-                        if (vh_case_begin("reader%d/f%d/intact", reader, fi)) { vh_nontrivial(); c10_verdict(&s, slot_put(0, w, s.flen), "intact"); }
+                        if (vh_case_begin("reader%d/f%d/intact", reader, fi)) { vh_nontrivial(); c10_verdict(&s, slot_put(0, w, s.flen), "intact"); c10_twin_verdict(&s, w, "intact"); }
                         /* payload damage */
                         for (uint32_t bit = 0; bit < bs * 8; bit++) {
                             uint32_t byte = bit >> 3;
@@ -289,6 +303,7 @@ static void plan_c10(void)
                             w[WIRE_HDR + byte] ^= (uint8_t)(1u << (bit & 7));
                             char nm[48]; snprintf(nm, sizeof nm, "payload bit %u", bit);
                             c10_verdict(&s, slot_put(0, w, s.flen), nm);
+                            if (bit % 5 == 0) c10_twin_verdict(&s, w, nm);
                             w[WIRE_HDR + byte] ^= (uint8_t)(1u << (bit & 7));
                         }
                         /* stored checksum rewritten (header resealed): to the other CRC flavour (must verify), to crc+1 (must not) */
@@ -300,6 +315,7 @@ static void plan_c10(void)
                             put_le32(w + 21, alt[q]); wire_seal(w, 0);
                             char nm[48]; snprintf(nm, sizeof nm, "stored checksum variant %d", q);
                             c10_verdict(&s, slot_put(0, w, s.flen), nm);
+                            c10_twin_verdict(&s, w, nm);
                             memcpy(w + 21, sv, 4); memcpy(w + 67, sc, 4);
                         }
                         free(w);
@@ -534,8 +550,8 @@ static int isa_invertible(const struct shape *sh, uint32_t E)
     int ok = r == k && f_rank(M, k, k, gf8_mul16, gf8_inv16) == k;
     free(M); free(G); return ok;
 }
-enum { DMG_PAYLOAD_FIRST, DMG_PAYLOAD_MID, DMG_PAYLOAD_LAST, DMG_IDX, DMG_BACKEND_ID, DMG_BACKEND_VER, DMG_LIBVER, NDMG };
-static const char *dmg_name[NDMG] = { "payload-first", "payload-mid", "payload-last", "idx=k+m", "foreign-backend-id", "backend-version+1", "libec-version+1" };
+enum { DMG_PAYLOAD_FIRST, DMG_PAYLOAD_MID, DMG_PAYLOAD_LAST, DMG_IDX, DMG_BACKEND_ID, DMG_BACKEND_VER, DMG_LIBVER, DMG_IDX_N1, DMG_IDX_2_31, DMG_IDX_MAX, DMG_BACKEND_VER_0, NDMG };
+static const char *dmg_name[NDMG] = { "payload-first", "payload-mid", "payload-last", "idx=k+m", "foreign-backend-id", "backend-version+1", "libec-version+1", "idx=k+m+1", "idx=2^31", "idx=2^32-1", "backend-version=0" };
 static void damage(uint8_t *f, size_t flen, int kind, int n)
 {
     size_t bs = flen - WIRE_HDR;
@@ -544,6 +560,10 @@ static void damage(uint8_t *f, size_t flen, int kind, int n)
     case DMG_PAYLOAD_MID: f[WIRE_HDR + bs / 2] ^= 0x10; return;
     case DMG_PAYLOAD_LAST: f[flen - 1] ^= 0x80; return;
     case DMG_IDX: put_le32(f, (uint32_t)n); break;
+    case DMG_IDX_N1: put_le32(f, (uint32_t)n + 1); break;
+    case DMG_IDX_2_31: put_le32(f, 0x80000000u); break;
+    case DMG_IDX_MAX: put_le32(f, 0xffffffffu); break;
+    case DMG_BACKEND_VER_0: put_le32(f + 55, 0); break;
     case DMG_BACKEND_ID: f[54] = (uint8_t)(f[54] == EC_BACKEND_FLAT_XOR_HD ? EC_BACKEND_LIBERASURECODE_RS_VAND : EC_BACKEND_FLAT_XOR_HD); break;
     case DMG_BACKEND_VER: put_le32(f + 55, le32(f + 55) + 1); break;
     case DMG_LIBVER: put_le32(f + 63, liberasurecode_get_version() + 1); break;
